@@ -525,9 +525,9 @@ def build_config(cfg):
     """cfg -> dict(old=Model|None, ns_arg, op, peer, fields, main_rel, init_files, init_dirs) or None."""
     rng = random.Random(cfg['seed'])
     init, store, opname = cfg['init'], cfg['store'], cfg['op']
-    big = cfg.get('big', False)
+    size = cfg.get('size', 'small')
     main_rel = 'a/b/keys.json' if init == 'nodir' else 'keys.json'
-    dense = 0.9 if big else 0.5
+    dense = {'tiny': 0.0, 'small': 0.5, 'big': 0.9}[size]
     if init in ('nodir', 'nofile'):
         old = None
     elif init == 'emptyobj':
@@ -535,7 +535,7 @@ def build_config(cfg):
     else:
         nss = {'one': NAMESPACES[:1], 'multi': NAMESPACES[:3],
                'multi-default': NAMESPACES[:2] + [ref.DEFAULT_NAMESPACE]}[init]
-        npeers = 4 if big else 2
+        npeers = {'tiny': 1, 'small': 2, 'big': 4}[size]
         db = {ns: {p: rand_fields(rng, dense=dense) for p in PEERS[:npeers]} for ns in nss}
         for ns in nss:      # make sure entries are not empty
             for p in db[ns]:
@@ -549,14 +549,15 @@ def build_config(cfg):
     fields = {}
     if opname == 'update-new':
         peer = next(p for p in PEERS + ['AB:CD:EF:01:02:03'] if p not in view)
-        fields = rand_fields(rng, dense=0.7)
+        fields = rand_fields(rng, dense=0.0 if size == 'tiny' else 0.7)
         fields.setdefault('irk', rand_key(rng))
+        fields.setdefault('address_type', 0)
     elif opname in ('update-merge', 'update-same', 'delete'):
         if not view:
             return None
         peer = sorted(view)[0]
         if opname == 'update-merge':
-            fields = rand_fields(rng, dense=0.5)
+            fields = rand_fields(rng, dense=0.0 if size == 'tiny' else 0.5)
             fields['csrk'] = rand_key(rng)
             fields['ltk'] = rand_key(rng)
         elif opname == 'update-same':
@@ -584,7 +585,7 @@ def build_config(cfg):
 
 def cfg_label(cfg):
     return (f'{cfg["init"]}/{cfg["store"]}/{cfg["op"]}' + ('/stale-tmp' if cfg.get('stale_tmp') else '')
-            + ('/big' if cfg.get('big') else ''))
+            + '/' + cfg.get('size', 'small'))
 
 
 def all_configs(seed):
@@ -1249,20 +1250,35 @@ def plan(tier, seed):
     for lo in range(0, total, step):
         cases.append({'kind': 'roundtrip', 'lo': lo, 'hi': min(total, lo + step)})
     cfgs = all_configs(seed)
+    crash = []
     if quick:
-        rng = random.Random(seed)
-        # every (store kind x operation) on a populated file, plus a rotating third of the rest
-        must = [c for c in cfgs if c['init'] in ('one', 'multi-default') and not c['stale_tmp']]
-        rest = [c for c in cfgs if c not in must]
-        rng.shuffle(rest)
-        chosen = must + rest[:len(rest) // 5]
+        for c in cfgs:
+            if c['stale_tmp']:
+                continue
+            if c['init'] in ('one', 'multi-default'):
+                modes = ['line', 'fs'] + (['write'] if c['store'] == 'named' else [])
+                crash.append(({**c, 'size': 'tiny'}, modes))
+            elif (c['init'], c['store'], c['op']) in (('nodir', 'named', 'update-new'), ('nofile', 'named', 'update-new'),
+                                                      ('emptyobj', 'named', 'update-new'),
+                                                      ('nofile', 'default', 'delete_all')):
+                crash.append(({**c, 'size': 'tiny'}, list(MODES)))
+        for c in cfgs:
+            if c['stale_tmp'] and c['init'] == 'one' and c['store'] == 'named' and c['op'] in ('update-merge', 'delete'):
+                crash.append(({**c, 'size': 'tiny'}, list(MODES)))
     else:
-        chosen = list(cfgs)
-        for i, c in enumerate(cfgs):
-            if c['init'] in ('one', 'multi', 'multi-default') and not c['stale_tmp']:
-                chosen.append({**c, 'big': True, 'seed': seed * 7 + i})
-    for c in chosen:
-        cases.append({'kind': 'crash', 'cfg': c})
+        for c in cfgs:
+            crash.append(({**c, 'size': 'tiny'}, list(MODES)))
+        k = 0
+        for c in cfgs:
+            if c['init'] in ('one', 'multi', 'multi-default') and not c['stale_tmp'] and c['store'] != 'named-new' \
+                    and c['op'] in ('update-new', 'update-merge', 'delete', 'delete_all'):
+                k += 1
+                if k % 2 == 0:
+                    crash.append(({**c, 'size': 'small', 'seed': seed * 7 + k}, list(MODES)))
+                if k % 6 == 0:
+                    crash.append(({**c, 'size': 'big', 'seed': seed * 11 + k}, ['line', 'write', 'fs']))
+    for c, modes in crash:
+        cases.append({'kind': 'crash', 'cfg': c, 'modes': modes})
     st = [c for c in cfgs if not c['stale_tmp'] and
           ((c['init'], c['store']) in (('one', 'named'), ('multi', 'named-new'), ('nodir', 'default')))]
     if quick:
